@@ -14,8 +14,9 @@ type HubOp struct {
 	K      string `json:"k"` // register | unregister | cancel | disconnect | shutdown | restart | appear | disappear | cut | refuse | wait
 	X      int    `json:"x"`
 	Y      int    `json:"y"`
-	WaitMs int    `json:"waitMs"`         // pause after the op
-	Conc   bool   `json:"conc,omitempty"` // issue concurrently with the next op (own goroutine)
+	WaitMs int    `json:"waitMs"`          // pause after the op
+	Conc   bool   `json:"conc,omitempty"`  // issue concurrently with the next op (own goroutine)
+	Spell  int    `json:"spell,omitempty"` // 0 = canonical SKI; 1 = upper case; 2 = dashes; 3 = blanks and mixed case
 }
 
 // Scenario: N hubs, initial registration/visibility, ops, final quiet period.
@@ -138,6 +139,7 @@ func (r *Run) apply(op HubOp) bool {
 		return false
 	}
 	nx, ny := f.Nodes[op.X], f.Nodes[op.Y]
+	ySKI := SpellSKI(ny.SKI, op.Spell)
 	hubOp := op.K == "register" || op.K == "unregister" || op.K == "cancel" || op.K == "disconnect" || op.K == "shutdown"
 	if hubOp && nx.IsDown() {
 		return false
@@ -147,22 +149,22 @@ func (r *Run) apply(op HubOp) bool {
 		if op.X == op.Y {
 			return false
 		}
-		nx.Hub.RegisterRemoteSKI(ny.SKI)
+		nx.Hub.RegisterRemoteSKI(ySKI)
 	case "unregister":
 		if op.X == op.Y {
 			return false
 		}
-		nx.Hub.UnregisterRemoteSKI(ny.SKI)
+		nx.Hub.UnregisterRemoteSKI(ySKI)
 	case "cancel":
 		if op.X == op.Y {
 			return false
 		}
-		nx.Hub.CancelPairingWithSKI(ny.SKI)
+		nx.Hub.CancelPairingWithSKI(ySKI)
 	case "disconnect":
 		if op.X == op.Y {
 			return false
 		}
-		nx.Hub.DisconnectSKI(ny.SKI, "test")
+		nx.Hub.DisconnectSKI(ySKI, "test")
 	case "shutdown":
 		nx.Hub.Shutdown()
 		nx.down.Store(true)
@@ -188,11 +190,16 @@ func (r *Run) apply(op HubOp) bool {
 		p := f.Proxies[[2]int{op.X, op.Y}]
 		p.SetRefuse(true)
 		go func() { time.Sleep(time.Duration(300+op.WaitMs) * time.Millisecond); p.SetRefuse(false) }()
+	case "readdr":
+		if op.X == op.Y {
+			return false
+		}
+		f.Readdr(op.X, op.Y, op.WaitMs)
 	case "detail":
 		if nx.IsDown() || op.X == op.Y {
 			return false
 		}
-		_ = nx.Hub.PairingDetailForSki(ny.SKI).State()
+		_ = nx.Hub.PairingDetailForSki(ySKI).State()
 	case "autoaccept":
 		if nx.IsDown() {
 			return false
@@ -212,6 +219,37 @@ func (r *Run) apply(op HubOp) bool {
 		return false
 	}
 	return true
+}
+
+// SpellSKI returns another spelling of the same SKI.
+func SpellSKI(ski string, kind int) string {
+	switch kind {
+	case 1:
+		return strings.ToUpper(ski)
+	case 2:
+		var b strings.Builder
+		for i, c := range ski {
+			if i > 0 && i%2 == 0 {
+				b.WriteByte('-')
+			}
+			b.WriteRune(c)
+		}
+		return b.String()
+	case 3:
+		var b strings.Builder
+		for i, c := range ski {
+			if i > 0 && i%4 == 0 {
+				b.WriteByte(' ')
+			}
+			if i%3 == 0 {
+				b.WriteString(strings.ToUpper(string(c)))
+			} else {
+				b.WriteRune(c)
+			}
+		}
+		return b.String()
+	}
+	return ski
 }
 
 // Payload round trip from x to y through x's latest writer; true if y's reader got it.
